@@ -43,6 +43,16 @@ theorem no_std_attr_and_no_deps :
     crateAttrs.contains "cfg_attr(not(feature=\"std\"),no_std)" = true ∧ cargoDependencies = [] := by
   decide +kernel
 
+/-- **C14 (e).** With default features disabled, `std` is enabled only when it is requested: no other feature of the manifest
+(`nightly`, the benchmark switches) pulls it in, so the no-std builds of `Spec.noStdBuilds` — among them
+`--no-default-features --features nightly` — exist as cargo resolves them. -/
+theorem no_feature_implies_std : noFeatureImpliesStd cargoFeatureGraph = true := by
+  decide +kernel
+
+/-- non-vacuity: the closure does follow the manifest's edges (`default` switches `std` on) -/
+example : (featureClosure cargoFeatureGraph ["default"]).contains "std" = true := by decide +kernel
+example : noFeatureImpliesStd [("nightly", ["fast"]), ("fast", ["std"]), ("std", [])] = false := by decide +kernel
+
 /-- non-vacuity: the table does contain std references (gated ones) -/
 example : externalRefs.any (fun r => r.path == "std::arch::is_x86_feature_detected") = true := by decide +kernel
 
